@@ -17,9 +17,9 @@ MODULE = "GossipKV"
 
 ASSUMPTIONS = [
     "TLC; the projection of harness/c06 (LocalState bytes -> per-entry (ts - bubble epoch, state, tokens), Client.Get, WatchKey/WatchPrefix callbacks, queue lengths)",
-    "testing/synctest: virtual clock and quiescence detection; every specification action is one atomic step of the harness "
-    "(a CAS, a NotifyMsg including its per-key worker run, a push/pull including both merges) - interleavings inside these steps are not explored",
-    "value domain: ring descriptors without token conflicts (each instance id has its own tokens); one key; key deletion (Delete/ObsoleteEntriesTimeout) not modelled",
+    "testing/synctest: virtual clock and quiescence detection; a CAS and a push/pull (both merges) are one atomic step of the harness; a NotifyMsg is "
+    "atomic with its per-key worker run unless the node's worker gate is closed (then Receive, merge and QueueBroadcast are separate steps)",
+    "value domains: ring.Desc without token conflicts (each instance id has its own tokens) and ring.PartitionRingDesc (partitions + owners, no locks); one key",
     "workload proviso of C03: an instance entry never gets two different live contents with the same timestamp (removals exempt)",
 ]
 
@@ -28,7 +28,7 @@ def cfg_consts(cfg):
     """Read the constants the harness has to agree on out of a .cfg file."""
     s = open(os.path.join(verif.SPEC, FAMILY, cfg)).read()
     out = {}
-    for k in ("Retention", "T", "N", "NI", "MaxClock"):
+    for k in ("Retention", "T", "N", "NI", "MaxClock", "InboxCap", "ObsoleteTimeout"):
         m = re.search(r"^\s*%s\s*=\s*(\d+)" % k, s, re.M)
         out[k] = int(m.group(1))
     return out
@@ -66,7 +66,7 @@ def require_action_coverage(ctx, actions):
         raise verif.Inconclusive("vacuity guard: actions never taken in the exhaustive runs: %s" % ", ".join(zero))
 
 
-def generate_and_replay(ctx, prop, cfg, num_per_worker, run_depth, workers=4, timeout=600, corrupt_expected=False):
+def generate_and_replay(ctx, prop, cfg, num_per_worker, run_depth, workers=4, timeout=600, corrupt_expected=False, domains=("ring",)):
     """-simulate behaviours (deterministic as a set for a given seed: every worker draws its own
     sequence), sorted, replayed on the real code."""
     k = cfg_consts(cfg)
@@ -80,27 +80,36 @@ def generate_and_replay(ctx, prop, cfg, num_per_worker, run_depth, workers=4, ti
     srt = r.out_path + ".sorted"
     with open(srt, "w") as f:
         f.write("\n".join(lines) + "\n")
-    env = {"VERIF_IN": srt, "VERIF_RETENTION": k["Retention"], "VERIF_T": k["T"], "VERIF_PROP": prop}
-    if corrupt_expected or os.environ.get("VERIF_SELFTEST_CORRUPT"):
-        # development-time self-test of the binding: the harness falsifies one expected output
-        env["VERIF_CORRUPT_EXPECTED"] = "1"
-    res = ctx.run_harness("c06", "^TestReplay$", env=env, timeout=timeout)
-    if res.get("cases") != len(lines) and not res.get("fatal"):
-        raise verif.Inconclusive("%s: harness replayed %s of %d behaviours" % (cfg, res.get("cases"), len(lines)))
+    res = None
+    for dom in domains:
+        # the same behaviours on every value domain: ring.Desc, and ring.PartitionRingDesc (partitions + owners)
+        env = {"VERIF_IN": srt, "VERIF_RETENTION": k["Retention"], "VERIF_T": k["T"], "VERIF_PROP": prop,
+               "VERIF_INBOXCAP": k["InboxCap"], "VERIF_OBSOLETE": k["ObsoleteTimeout"], "VERIF_DOMAIN": dom}
+        if corrupt_expected or os.environ.get("VERIF_SELFTEST_CORRUPT"):
+            # development-time self-test of the binding: the harness falsifies one expected output
+            env["VERIF_CORRUPT_EXPECTED"] = "1"
+        res = ctx.run_harness("c06", "^TestReplay$", env=env, timeout=timeout)
+        if res.get("cases") != len(lines) and not res.get("fatal"):
+            raise verif.Inconclusive("%s: harness replayed %s of %d behaviours" % (cfg, res.get("cases"), len(lines)))
+        _fold(ctx, res, cfg + "/" + dom)
+    return res
+
+
+def _fold(ctx, res, label):
     acts = (res.get("extra") or {}).pop("actions_replayed", None) or {}
     tot = ctx.extra.setdefault("actions_replayed", {})
     for a, n in acts.items():
         tot[a] = tot.get(a, 0) + n
-    ctx.absorb(res, cfg)
-    return res
+    ctx.absorb(res, label)
 
 
-def _record(ctx, tag, ntraces, steps, timeout):
+def _record(ctx, tag, ntraces, steps, timeout, domain="ring"):
     k = cfg_consts("GossipKVTrace.cfg")
     tr = ctx.path("trace_%s.ndjson" % tag)
     res = ctx.run_harness("c06", "^TestRecord$", timeout=timeout, env={
         "VERIF_TRACE": tr, "VERIF_NTRACES": ntraces, "VERIF_STEPS": steps, "VERIF_N": k["N"], "VERIF_NI": k["NI"],
-        "VERIF_RETENTION": k["Retention"], "VERIF_T": k["T"], "VERIF_MAXCLOCK": k["MaxClock"]})
+        "VERIF_RETENTION": k["Retention"], "VERIF_T": k["T"], "VERIF_MAXCLOCK": k["MaxClock"],
+        "VERIF_INBOXCAP": k["InboxCap"], "VERIF_OBSOLETE": k["ObsoleteTimeout"], "VERIF_DOMAIN": domain})
     if res.get("fatal"):
         raise verif.Inconclusive("recording driver: %s" % res["fatal"])
     return tr, res
@@ -117,12 +126,12 @@ def _validate(ctx, tr, timeout):
     return r, None
 
 
-def record_and_validate(ctx, ntraces, steps, timeout=900):
+def record_and_validate(ctx, ntraces, steps, timeout=900, domain="ring"):
     """code -> spec: traces recorded from real nodes under a seeded adversarial scheduler (4 nodes, 3 ids)
     are validated by TLC against GossipKVTrace.tla. A rejected trace is re-recorded once with the same
     seed; only a rejection that repeats is a disagreement of the code with the specification."""
     import json
-    tr, res = _record(ctx, "a", ntraces, steps, timeout)
+    tr, res = _record(ctx, "a" + domain, ntraces, steps, timeout, domain)
     for mm in (res.get("mismatches") or []):
         ctx.disagreement(mm, "record")
     r, line = _validate(ctx, tr, timeout)
@@ -132,7 +141,7 @@ def record_and_validate(ctx, ntraces, steps, timeout=900):
         ctx.traces += ntraces
         ctx.evaluations += nev
         return
-    tr2, _ = _record(ctx, "b", ntraces, steps, timeout)
+    tr2, _ = _record(ctx, "b" + domain, ntraces, steps, timeout, domain)
     r2, line2 = _validate(ctx, tr2, timeout)
     if line2 != line:
         raise verif.Inconclusive("trace rejected at line %s but the re-recorded trace at %s: recording is not deterministic" % (line, line2))
